@@ -125,6 +125,69 @@ pub struct Server {
     /// marker of the injection whose address this sink listens on (0 = not a sink)
     pub sink: u32,
     pub inj: Vec<Inj>,
+    /// listens on TCP too and answers TC=1 over UDP when a response exceeds the payload size the
+    /// query advertises (false = the historical behaviour: TCP connects are logged and refused,
+    /// datagrams are never truncated)
+    pub tcp: bool,
+}
+
+/// Hostile CNAME fan-out (fanout.rs): the servers of `zones` answer every query for a name
+/// `t[-<i>]*.<zone>` of fewer than `nest` indices with `k` CNAME records in ONE response (all in
+/// bailiwick of the zone asked), whose targets `t..-<i>.<zones[i % n]>` are again names they serve
+/// the same way; names of `nest` indices are plain leaves. Procedural on purpose: the response
+/// size is a parameter, the world (zones, servers, delegations) does not depend on it.
+#[derive(Clone, Debug, PartialEq)]
+pub struct Fan {
+    /// zones[0] = home of the entry name `t.<zones[0]>`; the others are reached across zone cuts
+    pub zones: Vec<String>,
+    pub k: u32,
+    pub nest: u8,
+    /// answer | authority | additional | spread (record i goes to section i % 3)
+    pub layout: String,
+    /// qname = every CNAME is owned by the name asked (several CNAMEs at one owner);
+    /// other = CNAME i is owned by `x..-<i>.<zone asked>`
+    pub owner: String,
+    /// the response also carries a record of the type asked at the name asked (always the case
+    /// when no CNAME goes to the answer section: the response would be a NODATA otherwise)
+    pub a_rec: bool,
+}
+
+impl Fan {
+    pub fn to_json(&self) -> Value {
+        json!({"zones": strs_json(&self.zones), "k": self.k, "nest": self.nest, "layout": self.layout, "owner": self.owner, "a_rec": self.a_rec})
+    }
+    pub fn from_json(v: &Value) -> Option<Fan> {
+        Some(Fan {
+            zones: strs_from(&v["zones"]),
+            k: v["k"].as_u64()? as u32,
+            nest: v["nest"].as_u64().unwrap_or(1) as u8,
+            layout: v["layout"].as_str().unwrap_or("answer").to_string(),
+            owner: v["owner"].as_str().unwrap_or("other").to_string(),
+            a_rec: v["a_rec"].as_bool().unwrap_or(true),
+        })
+    }
+    /// `Some(indices)` when `label` is a fan name label `t[-<i>]*`
+    pub fn path(label: &str) -> Option<Vec<u32>> {
+        let rest = label.strip_prefix('t')?;
+        if rest.is_empty() {
+            return Some(vec![]);
+        }
+        let mut v = vec![];
+        for part in rest.strip_prefix('-')?.split('-') {
+            if part.is_empty() || part.len() > 6 || !part.bytes().all(|b| b.is_ascii_digit()) {
+                return None;
+            }
+            v.push(part.parse().ok()?);
+        }
+        Some(v)
+    }
+    /// (zone, path) when `name` is a fan name directly below one of the fan zones
+    pub fn locate(&self, name: &str) -> Option<(&str, Vec<u32>)> {
+        let l = labels(name);
+        let first = l.first()?;
+        let z = self.zones.iter().find(|z| labels(z).len() + 1 == l.len() && is_sub(name, z))?;
+        Some((z.as_str(), Fan::path(&first.to_ascii_lowercase())?))
+    }
 }
 
 #[derive(Clone, Debug)]
@@ -149,6 +212,8 @@ pub struct World {
     pub queries: Vec<(String, String)>,
     /// pathology / feature tags present (for must-observe counters)
     pub tags: Vec<String>,
+    /// hostile CNAME fan-out served by the zones it names (None in every other kind of world)
+    pub fan: Option<Fan>,
 }
 
 impl World {
@@ -183,7 +248,7 @@ impl World {
     }
 
     pub fn to_json(&self) -> Value {
-        json!({
+        let mut v = json!({
             "roots": strs_json(&self.roots),
             "zones": self.zones.iter().map(|z| json!({"apex": z.apex, "recs": recs_json(&z.recs)})).collect::<Vec<_>>(),
             "servers": self.servers.iter().map(|s| json!({
@@ -202,7 +267,17 @@ impl World {
             },
             "queries": self.queries.iter().map(|(n, t)| Value::String(format!("{n} {t}"))).collect::<Vec<_>>(),
             "tags": strs_json(&self.tags),
-        })
+        });
+        // only present where used: the encoding of every other world is what it always was
+        if let Some(f) = &self.fan {
+            v["fan"] = f.to_json();
+        }
+        for (i, s) in self.servers.iter().enumerate() {
+            if s.tcp {
+                v["servers"][i]["tcp"] = json!(true);
+            }
+        }
+        v
     }
 
     pub fn from_json(v: &Value) -> Option<World> {
@@ -221,6 +296,7 @@ impl World {
                     chase: s["chase"].as_bool().unwrap_or(false),
                     ladder: s["ladder"].as_str().unwrap_or("").to_string(),
                     sink: s["sink"].as_u64().unwrap_or(0) as u32,
+                    tcp: s["tcp"].as_bool().unwrap_or(false),
                     inj: s["inj"]
                         .as_array()
                         .map(|a| {
@@ -259,6 +335,7 @@ impl World {
                 })
                 .collect(),
             tags: strs_from(&v["tags"]),
+            fan: v.get("fan").and_then(Fan::from_json),
         })
     }
 }
